@@ -432,12 +432,12 @@ func c05Shapes(thorough bool) []shape {
 }
 
 type c05Obs struct {
-	srvErrs []string
-	frames  []*sim.Frame
-	header  *pb.ConnectionHeader
-	ids     []uint32
+	srvErrs    []string
+	frames     []*sim.Frame
+	header     *pb.ConnectionHeader
+	ids        []uint32
 	preambleOK bool
-	results []error
+	results    []error
 }
 
 func diffOps(got, want op) string {
@@ -619,79 +619,102 @@ func c05Units(thorough bool) []*explore.Unit {
 		}
 	}
 	patterns = append(patterns, "ABC", "CBA", "ABCAC", "ACBCA", "ABCABC", "AABBCC", "CABAC")
+	// which kind of call stands at position i: the original assignment (put, get, delete of a
+	// family by position) and rotations of (put, delete of the whole row - a mutation without
+	// any cell -, get, delete of a family), so that every kind follows every other kind inside
+	// one region's action list
+	variants := []int{-1, 0, 1}
+	if thorough {
+		variants = []int{-1, 0, 1, 2, 3}
+	}
 	for _, pat := range patterns {
 		for _, codec := range []compression.Codec{nil, snappy} {
-			if codec != nil && len(pat) < 4 && !thorough {
-				continue
-			}
-			pat, codec := pat, codec
-			out := &c05Obs{}
-			var wants []op
-			name := "multi|" + pat
-			if codec != nil {
-				name += "|snappy"
-			}
-			u := &explore.Unit{Name: name, Bound: 0, Opt: vrt.Options{MaxSteps: 20000}}
-			u.Body = c05Send(codec, len(pat), func(r *rig) ([]hrpc.Call, []hrpc.Call) {
-				wants = nil
-				var calls []hrpc.Call
-				for i, rc := range []byte(pat) {
-					key := fmt.Sprintf("%s%d", keyOf[rc], i)
-					var c hrpc.Call
-					var w op
-					switch i % 3 {
-					case 0:
-						c, _ = hrpc.NewPutStr(context.Background(), "t", key, map[string]map[string][]byte{"f": {"q": []byte("v" + key)}})
-						w = op{Kind: "PUT", Row: key, Durability: "USE_DEFAULT", Cells: []cellT{{key, "f", "q", "v" + key, math.MaxInt64, 4}}}
-					case 1:
-						c, _ = hrpc.NewGetStr(context.Background(), "t", key)
-						w = op{Kind: "get", Row: key, MaxVer: 1, TRTo: math.MaxInt64, CacheBlk: true, Consist: "STRONG"}
-					default:
-						c, _ = hrpc.NewDelStr(context.Background(), "t", key, map[string]map[string][]byte{"f": nil})
-						w = op{Kind: "DELETE", Row: key, Durability: "USE_DEFAULT", Cells: []cellT{{key, "f", "", "", math.MaxInt64, 14}}}
+			for _, variant := range variants {
+				if codec != nil && len(pat) < 4 && !thorough && variant < 0 {
+					continue
+				}
+				if codec != nil && variant >= 0 && len(pat) != 2 && len(pat) != 4 && !thorough {
+					continue
+				}
+				pat, codec, variant := pat, codec, variant
+				out := &c05Obs{}
+				var wants []op
+				name := "multi|" + pat
+				if variant >= 0 {
+					name += fmt.Sprintf("|kinds-rot%d", variant)
+				}
+				if codec != nil {
+					name += "|snappy"
+				}
+				u := &explore.Unit{Name: name, Bound: 0, Opt: vrt.Options{MaxSteps: 20000}}
+				u.Body = c05Send(codec, len(pat), func(r *rig) ([]hrpc.Call, []hrpc.Call) {
+					wants = nil
+					var calls []hrpc.Call
+					for i, rc := range []byte(pat) {
+						key := fmt.Sprintf("%s%d", keyOf[rc], i)
+						var c hrpc.Call
+						var w op
+						sel := i % 3
+						if variant >= 0 {
+							sel = []int{0, 3, 1, 2}[(i+variant)%4]
+						}
+						switch sel {
+						case 3:
+							c, _ = hrpc.NewDelStr(context.Background(), "t", key, nil)
+							w = op{Kind: "DELETE", Row: key, Durability: "USE_DEFAULT"}
+						case 0:
+							c, _ = hrpc.NewPutStr(context.Background(), "t", key, map[string]map[string][]byte{"f": {"q": []byte("v" + key)}})
+							w = op{Kind: "PUT", Row: key, Durability: "USE_DEFAULT", Cells: []cellT{{key, "f", "q", "v" + key, math.MaxInt64, 4}}}
+						case 1:
+							c, _ = hrpc.NewGetStr(context.Background(), "t", key)
+							w = op{Kind: "get", Row: key, MaxVer: 1, TRTo: math.MaxInt64, CacheBlk: true, Consist: "STRONG"}
+						default:
+							c, _ = hrpc.NewDelStr(context.Background(), "t", key, map[string]map[string][]byte{"f": nil})
+							w = op{Kind: "DELETE", Row: key, Durability: "USE_DEFAULT", Cells: []cellT{{key, "f", "", "", math.MaxInt64, 14}}}
+						}
+						c.SetRegion(regs[rc])
+						w.Method, w.Region = "Multi", string(regs[rc].Name())
+						w.Attrs = fmt.Sprintf("index=%d;", i+1)
+						wants = append(wants, w)
+						calls = append(calls, c)
 					}
-					c.SetRegion(regs[rc])
-					w.Method, w.Region = "Multi", string(regs[rc].Name())
-					w.Attrs = fmt.Sprintf("index=%d;", i+1)
-					wants = append(wants, w)
-					calls = append(calls, c)
-				}
-				return nil, calls
-			}, false, out)
-			u.Check = func(res *vrt.Result) *explore.Finding {
-				if f := c05Common(res, out, codec, name); f != nil {
-					return f
-				}
-				if len(out.frames) != 1 {
-					return &explore.Finding{Class: "wrong-number-of-frames", Msg: fmt.Sprintf("%d frames for one batch of %d\n%s", len(out.frames), len(pat), name)}
-				}
-				ops, msg := decodeFrame(out.frames[0])
-				if msg != "" {
-					return &explore.Finding{Class: "frame-not-self-consistent", Msg: msg + "\n" + name}
-				}
-				if len(ops) != len(wants) {
-					return &explore.Finding{Class: "multi-action-count-wrong", Msg: fmt.Sprintf("%d actions for %d calls\n%s", len(ops), len(wants), name)}
-				}
-				// match by action index; per-region order must follow the batch order
-				byIdx := map[string]op{}
-				lastPerRegion := map[string]int{}
-				for _, o := range ops {
-					byIdx[o.Attrs] = o
-					var ix int
-					fmt.Sscanf(o.Attrs, "index=%d;", &ix)
-					if ix < lastPerRegion[o.Region] {
-						return &explore.Finding{Class: "multi-actions-of-a-region-out-of-batch-order", Msg: fmt.Sprintf("region %s\n%s", o.Region, name)}
+					return nil, calls
+				}, false, out)
+				u.Check = func(res *vrt.Result) *explore.Finding {
+					if f := c05Common(res, out, codec, name); f != nil {
+						return f
 					}
-					lastPerRegion[o.Region] = ix
-				}
-				for _, w := range wants {
-					if d := diffOps(byIdx[w.Attrs], w); d != "" {
-						return &explore.Finding{Class: "multi-action-differs-from-its-call", Msg: d + "\n" + name}
+					if len(out.frames) != 1 {
+						return &explore.Finding{Class: "wrong-number-of-frames", Msg: fmt.Sprintf("%d frames for one batch of %d\n%s", len(out.frames), len(pat), name)}
 					}
+					ops, msg := decodeFrame(out.frames[0])
+					if msg != "" {
+						return &explore.Finding{Class: "frame-not-self-consistent", Msg: msg + "\n" + name}
+					}
+					if len(ops) != len(wants) {
+						return &explore.Finding{Class: "multi-action-count-wrong", Msg: fmt.Sprintf("%d actions for %d calls\n%s", len(ops), len(wants), name)}
+					}
+					// match by action index; per-region order must follow the batch order
+					byIdx := map[string]op{}
+					lastPerRegion := map[string]int{}
+					for _, o := range ops {
+						byIdx[o.Attrs] = o
+						var ix int
+						fmt.Sscanf(o.Attrs, "index=%d;", &ix)
+						if ix < lastPerRegion[o.Region] {
+							return &explore.Finding{Class: "multi-actions-of-a-region-out-of-batch-order", Msg: fmt.Sprintf("region %s\n%s", o.Region, name)}
+						}
+						lastPerRegion[o.Region] = ix
+					}
+					for _, w := range wants {
+						if d := diffOps(byIdx[w.Attrs], w); d != "" {
+							return &explore.Finding{Class: "multi-action-differs-from-its-call", Msg: d + "\n" + name}
+						}
+					}
+					return nil
 				}
-				return nil
+				units = append(units, u)
 			}
-			units = append(units, u)
 		}
 	}
 	// (3) concurrent senders on one connection that is not a TCP socket (a gather write is several Writes)
@@ -884,9 +907,9 @@ func c05Race() []RaceBody {
 func init() {
 	register(&Prop{
 		Race: c05Race,
-		ID: "C05", Level: "model_checking",
-		Technique: "every call shape / multi grouping sent through the real region client and parsed by an independent wire decoder (field-by-field comparison with the requested operation); concurrent senders on a non-TCP connection under all schedules with <=2 deviations",
-		Rule: "(1) shapes: 5 mutation kinds x 5 value-map shapes x 5 timestamps x 5 durabilities x TTL (one factor at a time plus a third of the pairs; thorough: full product), check-and-put, gets with 10 options singly and in pairs, scans with 9 options x 3 bounds, scanner continue/close/renew; plain and snappy; (2) one multi-request for every sequence of 1-4 calls over two regions and 7 sequences over three regions (put/get/delete mixed), plain and snappy; (3) 2-3 concurrent senders (unbatched cellblock calls, a multi flush racing an unbatched call) on an in-memory net.Conn where a gather write is several Writes, all schedules with <=2 deviations; (4) values around 1 and 2 compression chunks. Oracle: preamble and connection header, frame length, unique call ids, method name, priority, cell_block_meta.length = trailing bytes, cells = sum of associated_cell_count, decoded operation = requested operation, region name per action, per-region batch order. Non-trivial = every unit (distinct shapes / schedules).",
+		ID:   "C05", Level: "model_checking",
+		Technique:   "every call shape / multi grouping sent through the real region client and parsed by an independent wire decoder (field-by-field comparison with the requested operation); concurrent senders on a non-TCP connection under all schedules with <=2 deviations",
+		Rule:        "(1) shapes: 5 mutation kinds x 5 value-map shapes x 5 timestamps x 5 durabilities x TTL (one factor at a time plus a third of the pairs; thorough: full product), check-and-put, gets with 10 options singly and in pairs, scans with 9 options x 3 bounds, scanner continue/close/renew; plain and snappy; (2) one multi-request for every sequence of 1-4 calls over two regions and 7 sequences over three regions (put/get/delete mixed), plain and snappy; (3) 2-3 concurrent senders (unbatched cellblock calls, a multi flush racing an unbatched call) on an in-memory net.Conn where a gather write is several Writes, all schedules with <=2 deviations; (4) values around 1 and 2 compression chunks. Oracle: preamble and connection header, frame length, unique call ids, method name, priority, cell_block_meta.length = trailing bytes, cells = sum of associated_cell_count, decoded operation = requested operation, region name per action, per-region batch order. Non-trivial = every unit (distinct shapes / schedules).",
 		Assumptions: []string{"kernel-TCP atomicity of one writev is the kernel's and package net's (not explorable by a scheduler that does not model the socket lock)", "map iteration inside the client is deterministic under instrumentation (sorted / insertion order); family orders are varied by the shapes instead"},
 		Quick:       150 * time.Second, Thorough: 20 * time.Minute,
 		Units: c05Units,
